@@ -419,6 +419,28 @@ class Eval:
             x = self.ev(args[0])
             if isinstance(x, M):
                 return CNT(x, d.split(".")[-1])
+        if d in ("numpy.maximum", "numpy.minimum") and len(args) == 2:
+            f = signs.smax if d.endswith("maximum") else signs.smin
+
+            def g2(x, y):
+                x = x if isinstance(x, E) else b2e(x)
+                y = y if isinstance(y, E) else b2e(y)
+                return E(f(x.sign, y.sign))
+            return lift(g2, self.ev(args[0]), self.ev(args[1]))
+        if d in ("numpy.triu", "numpy.tril") and args:
+            x = self.ev(args[0])
+            kk = dict(kwargs).get("k", args[1] if len(args) > 1 else ("const", 0))
+            if isinstance(x, M) and "*" in x.d and is_const(kk) and isinstance(kk[1], int) and kk[1] in (0, 1, -1):
+                a_, b_ = x.d["*"]
+                zero = E(Z) if isinstance(a_, E) else False
+                if self.diagonal:
+                    keep = kk[1] == 0 or (d.endswith("triu") and kk[1] < 0) or (d.endswith("tril") and kk[1] > 0)
+                    return M({"*": (a_ if keep else zero, b_ if keep else zero)})
+                g = self.atom("g")        # i > j
+                upper = d.endswith("triu")
+                keep_ij = (not g) if upper else g
+                keep_ji = g if upper else (not g)
+                return M({"*": (a_ if keep_ij else zero, b_ if keep_ji else zero)})
         if d in ("numpy.abs", "numpy.absolute") and len(args) == 1:
             return lift(lambda e: E(P if signs.pos(e.sign) == N else e.sign), self.ev(args[0]))
         raise Inconclusive("PW: call %s outside the fragment" % d)
@@ -750,7 +772,8 @@ def _adj_indicator(m, pair):
 
 def rule_counts(prog, rep, rule="PW.count"):
     """is_clique / is_complete / degrees: counting identities over the skeleton indicator"""
-    from .pred import poly, pkey, padd, pconst, pmul
+    from .pred import poly, pkey, padd, pconst, pmul, pfmt
+    from fractions import Fraction
     # is_complete: half the ordered count == p(p-1)/2
     for name, mp, nterm in (("is_complete", "P", lambda: ("ext", "len", (("param", "P"),), ())),
                             ("is_clique", "A", None)):
@@ -775,26 +798,56 @@ def rule_counts(prog, rep, rule="PW.count"):
                 cs = cs[2]
             env_extra = {("param", "S"): SUBSET("S")} if name == "is_clique" else None
             ok = True
+            K = None
+            why = ""
             for pair in signs.PAIRS:
-                env = {("param", mp): M(mat(pair))}
-                if env_extra:
-                    env.update(env_extra)
-                r = Eval(env, {}).ev(cs)
-                if not isinstance(r, CNT) or r.kind != "all" or not _adj_indicator(r.m, pair):
+                for g in (True, False):
+                    env = {("param", mp): M(mat(pair))}
+                    if env_extra:
+                        env.update(env_extra)
+                    r = Eval(env, {"g": g}).ev(cs)
+                    if not isinstance(r, CNT) or r.kind != "all":
+                        ok = False
+                        why = "the counted quantity is not a sum over the whole (sub)matrix"
+                        break
+                    ij, ji = r.m.d["*"]
+                    cnt = 0
+                    for e in (ij, ji):
+                        v = nzb(e)
+                        if v is None or (isinstance(e, E) and e.sign not in (Z, ONE)):
+                            ok = False
+                            why = "counted entries are not 0/1 indicators"
+                        cnt += 1 if v else 0
+                    adjacent = A_(pair[0]) or A_(pair[1])
+                    if adjacent:
+                        if K is None:
+                            K = cnt
+                        if cnt != K or cnt == 0:
+                            ok = False
+                            why = "an adjacent pair with entries %s contributes %d to the count, another contributes %d" % (pair, cnt, K)
+                    elif cnt != 0:
+                        ok = False
+                        why = "a non-adjacent pair contributes to the count"
+                # the diagonal must not be counted
+                denv = {("param", mp): M({"*": (E(Z, "a"), E(Z, "a"))})}
+                denv.update(env_extra or {})
+                d0 = Eval(denv, {"g": True}, diagonal=True).ev(cs)
+                if isinstance(d0, CNT) and any(nzb(e) for e in d0.m.d["*"]):
                     ok = False
+                    why = "the diagonal is counted"
             n = ("ext", "len", (("param", "P"),), ()) if name == "is_complete" else None
             po = poly(other)
-            # closed form must be n(n-1)/scale with n the node count
             atoms_ = {a for m_ in po for a in m_}
             if len(atoms_) != 1:
                 raise Inconclusive("closed form has %d size atoms" % len(atoms_))
             nat = next(iter(atoms_))
             natp = {(nat,): 1}
-            want = {m_: c / scale for m_, c in pmul(natp, padd(natp, pconst(1), -1)).items()}
+            K = K or 2
+            want = {m_: c * Fraction(K, 2) / scale for m_, c in pmul(natp, padd(natp, pconst(1), -1)).items()}
             size_ok = (nat == n) if n is not None else (nat[0] == "ext" and nat[1] == "len")
             rep.check(rule, ok and pkey(po) == pkey(want) and size_ok, where_of(f),
-                      "%s compares the ordered count of adjacent pairs (÷%s) with n(n-1)/%s" % (name, scale, scale),
-                      "%s: counted indicator or closed form differs from |{(i,j) adjacent}|/%s == n(n-1)/%s" % (name, scale, scale))
+                      "%s compares the count of adjacent pairs (%s per unordered pair, ÷%s) with the closed form for n(n-1)/2 pairs" % (name, K, scale),
+                      "%s: counted indicator or closed form differs from `every unordered pair adjacent`: %s" % (name, why or "closed form %s" % pfmt(po)))
         except Inconclusive as e:
             rep.unk(rule, where_of(f), "%s left the counting fragment: %s" % (name, e.why))
     q = "sempler.utils.degrees"
